@@ -177,6 +177,9 @@ func (server *Server) ServeCodec(codec ServerCodec) {
 			})
 		}
 	}
+	// Requests already read are still in the decode queue: dispatch them
+	// before waiting for the handlers and before touching the stream table.
+	closeQueue(pipeline)
 	wg.Wait()
 	server.mutex.Lock()
 	server.deleteCodec(codec)
@@ -189,7 +192,6 @@ func (server *Server) ServeCodec(codec ServerCodec) {
 		ctx.stream.Close()
 	}
 	readStream.Close()
-	pipeline.Close()
 }
 
 // deleteCodec closes the specified codec.
@@ -529,6 +531,9 @@ func (server *Server) listen(sock socket.Socket, address string, New NewServerCo
 			}
 			if err == io.EOF || err == io.ErrUnexpectedEOF {
 				if atomic.CompareAndSwapInt32(&svrctx.closed, 0, 1) {
+					if svrctx.pipeline != nil {
+						closeQueue(svrctx.pipeline)
+					}
 					svrctx.wg.Wait()
 					server.mutex.Lock()
 					delete(codecs, svrctx.codec)
@@ -540,9 +545,6 @@ func (server *Server) listen(sock socket.Socket, address string, New NewServerCo
 					}
 					if svrctx.readStream != nil {
 						svrctx.readStream.Close()
-					}
-					if svrctx.pipeline != nil {
-						svrctx.pipeline.Close()
 					}
 				}
 			}
